@@ -1081,7 +1081,7 @@ def section_vnodes_ir(rep, rng, tier):
                          'property is still checked on the real methods')
     core.run_section(
         rep, 'vnodes-ir', vn_cases(rng, tier), line_fn=vn_line, impl_fn=vn_impl, oracle_fn=vn_oracle,
-        skip_fn=lambda m: m == 'unsupported', nontrivial_fn=vn_nontrivial,
+        skip_fn=lambda m: m == 'unsupported' or 'Unmodelled' in m, nontrivial_fn=vn_nontrivial,
         kind_fn=lambda c, got: c['meta']['kind'] + ('/raises' if ' err=-' not in got else ''),
         rule='the program GENERATED from traces_parser.py (Gen/PyIRVn: vnode_generator, parse_vnodes, parse_vnode) run by the '
              'interpreter of Model/PyIRVn (`vnir`) vs. the real TracesParser.vnode_generator / parse_vnodes / parse_vnode on the '
@@ -1212,7 +1212,7 @@ def replay(path):
             print(f'VIOLATION property=C08 replay={path}')
             return 1
         print('oracle: property holds on this input')
-        return 0 if got == model or model == 'unsupported' else 1
+        return 0 if got == model or model == 'unsupported' or 'Unmodelled' in model else 1
     try:
         got = impl_fn(case)
     except Exception as e:
